@@ -96,6 +96,11 @@ func (c *conn) closeNotify() <-chan struct{} {
 	defer c.mu.Unlock()
 	if c.closeNotifyc == nil {
 		c.closeNotifyc = make(chan struct{})
+		if c.clientGone {
+			// The connection has already terminated.
+			close(c.closeNotifyc)
+			return c.closeNotifyc
+		}
 
 		if msc, isMulti := c.rwc.(MultistreamConn); isMulti {
 			// MultistreamConn provides it's own error handler
@@ -130,10 +135,30 @@ func (c *conn) closeNotify() <-chan struct{} {
 func (c *conn) notifyClientGone() {
 	c.mu.Lock()
 	defer c.mu.Unlock()
-	if c.closeNotifyc != nil && !c.clientGone {
-		close(c.closeNotifyc) // unblock readers
+	if !c.clientGone {
 		c.clientGone = true
+		if c.closeNotifyc != nil {
+			close(c.closeNotifyc) // unblock readers
+		}
 	}
+}
+
+// terminated is called when serve returns: whoever asked for CloseNotify is
+// told that the connection is gone, also when the pipe copy routine was
+// never started, and a started one is released in case it is blocked
+// writing data that nobody is going to read anymore.
+func (c *conn) terminated() {
+	c.notifyClientGone()
+	c.sr.Lock()
+	c.sr.pipeCopyF = nil
+	if c.sr.pr != nil {
+		c.sr.pr.Close()
+		c.sr.pr = nil
+	}
+	if pr, ok := c.sr.r.(*io.PipeReader); ok {
+		pr.Close()
+	}
+	c.sr.Unlock()
 }
 
 // Create new connection from rwc.
@@ -184,6 +209,7 @@ func (c *conn) serve() {
 				c.rwc.RemoteAddr().String(), err, buf)
 		}
 		c.rwc.Close()
+		c.terminated()
 	}()
 	if tlsConn, ok := c.rwc.(*tls.Conn); ok {
 		if err := tlsConn.Handshake(); err != nil {
